@@ -187,6 +187,8 @@ def r_bitmap(F, R):
     for nd in walk(w_idx or ()):
         if nd[0] == "call" and nd[1] == ("slice", "first"):
             leaf_w = nd
+        if nd[0] == "place" and nd[2] == ("arg", 2) and "[]" in nd[3]:
+            leaf_w = nd
     # reader: closure reads stats.1[idx]; parent tests (or >> sh) & 1
     nctx = Ctx(nf)
     r_idx = r_sh = None
@@ -237,8 +239,10 @@ def r_bitmap(F, R):
 def subst_leaf(t, leaf):
     """replace the leaf call (ignoring its block id) by X and drop block ids elsewhere"""
     if isinstance(t, tuple):
+        if t and t[0] == "place" and t == leaf:
+            return ("X",)
         if t and t[0] == "call" and len(t) == 5:
-            if t[1] == leaf[1] and strip(t[2]) == strip(leaf[2]):
+            if leaf[0] == "call" and t[1] == leaf[1] and strip(t[2]) == strip(leaf[2]):
                 return ("X",)
             return ("call", t[1], tuple(subst_leaf(x, leaf) for x in t[2]), t[3])
         return tuple(subst_leaf(x, leaf) for x in t)
